@@ -119,7 +119,7 @@ def slots(ctx, cgf):
     h, body, latches = L
     sty, src = loop_source(cgf, L)
     unad = sty and re.match(r"^std::slice::Iter<'_, grammar::Function>$", sty) and strip(strip(src)[2][0])[0] == 'arg'
-    ctx.ob(['C04', 'C14'], 'R-ITER', 'CGF|all-functions-in-order', bool(unad) and not cycle_without(cgf, body, h, {pb['block']}),
+    ctx.ob(['C04', 'C14', 'C06'], 'R-ITER', 'CGF|all-functions-in-order', bool(unad) and not cycle_without(cgf, body, h, {pb['block']}),
            'every declared virtual function is built and pushed, in declaration order (iterator %s)' % sty, loc(pb['span']))
     pushed = cgf.expr_of_operand(pb['term']['args'][1])
     fb = find_calls(pushed, 'function::build')
